@@ -337,7 +337,21 @@ def scheduled_flag(ctx):
     for c in [c for c in ev.calls if c.callee.endswith('._update_preconditioners_fn')]:
       n += 1
       got = c.args.get('scheduled', NONE)
-      ctx.ob('C04.K6', fi.short, 'interval is scheduled iff decay and end are set and the learning rate is a schedule', cmpr.same(got, exp),
+      okf = cmpr.same(got, exp)
+      if not okf:
+        # however the flag is computed: its truth table over (decay set, end set, learning rate callable) is the conjunction
+        from ..ideal import Point
+        import itertools as _it
+        D_, E_ = cfg('decay_preconditioning_compute_steps'), cfg('end_preconditioning_compute_steps')
+        LR = cfg('learning_rate')
+        is_callable = lambda t: t.op == 'call' and t.args[0].op == 'builtin' and t.args[0].args[0] == 'callable' and len(t.args[1]) == 1 and t.args[1][0] is LR
+        rows = []
+        for vd, ve, vc in _it.product([False, True], repeat=3):
+          pt = Point(lambda t, vd=vd, ve=ve, vc=vc: ('bool', vd) if t is D_ else (('bool', ve) if t is E_ else (('bool', vc) if is_callable(t) else None)))
+          v_ = pt.ival(got)
+          rows.append(v_ is not None and v_ != 'indet' and bool(v_[1]) == (vd and ve and vc))
+        okf = all(rows)
+      ctx.ob('C04.K6', fi.short, 'interval is scheduled iff decay and end are set and the learning rate is a schedule', okf,
              f'the `scheduled` flag handed to the dispatcher must be decay_preconditioning_compute_steps and end_preconditioning_compute_steps and '
              f'callable(learning_rate); got `{show(got, maxdepth=4)[:200]}`', ctx.loc(fi, c.node) if c.node is not None else ctx.loc(fi),
              sample='decay and end and callable(learning_rate)')
